@@ -25,7 +25,6 @@ var reservedIdentifiers = map[string]bool{
 	"সর্বনিম্ন":    true,
 	"সর্বোচ্চ":     true,
 	"রাউন্ড":       true,
-	"input":        true,
 	"ইনপুট":        true,
 }
 
